@@ -298,6 +298,8 @@ func TestVerifC18Callback(t *testing.T) {
 			}
 			return b.String()
 		}
+		var sessRuns []string // the scenario as a case for the session model: c:<events sent> with a callback, p:<events sent> without
+		baseTotal := 0
 		for ri, run := range sc.Runs {
 			// reference
 			rec.mu.Lock()
@@ -332,6 +334,11 @@ func TestVerifC18Callback(t *testing.T) {
 				goto nextScenario
 			}
 			nruns++
+			sessRuns = append(sessRuns, "c:"+strconv.Itoa(len(ref)))
+			base.mu.Lock()
+			baseTotal += len(base.evs)
+			base.evs = nil
+			base.mu.Unlock()
 			var got []cbEvent
 			for i := 0; i < recList.Len(); i++ {
 				tup := recList.Index(i).(starlark.Tuple)
@@ -392,9 +399,6 @@ func TestVerifC18Callback(t *testing.T) {
 			rec.mu.Lock()
 			rec.evs = nil
 			rec.mu.Unlock()
-			base.mu.Lock()
-			base.evs = nil
-			base.mu.Unlock()
 			l, _ := label.Parse(last.Target)
 			refProj.Run(l, &RunOptions{Always: true})
 			rec.mu.Lock()
@@ -412,6 +416,9 @@ func TestVerifC18Callback(t *testing.T) {
 				base.mu.Unlock()
 				nruns++
 				events += len(got)
+				sessRuns = append(sessRuns, "p:"+strconv.Itoa(len(ref)))
+				baseTotal += len(got)
+				fmt.Fprintf(out, "session\t%s\t%d\t%s\n", strings.Join(sessRuns, ","), baseTotal, scJSON)
 				gm, gl := cbByLabel(got)
 				rm, rl := cbByLabel(ref)
 				if strings.Join(gl, " ") != strings.Join(rl, " ") {
